@@ -6,6 +6,7 @@ CONSTANTS
   AllowEmptyBd = TRUE
   WithReps = TRUE
   Mode = "insert"
+  WithHist = TRUE
 VIEW View
 INVARIANT InvWellFormed
 INVARIANT InvPartition
